@@ -657,7 +657,9 @@ fn get_all_commands<'a>(
     for command in all_commands.iter() {
         let mut components = path::Path::new(command.as_str()).components();
         match (components.next(), components.next()) {
-            (Some(path::Component::Normal(c)), None) if c.to_str() == Some(command.as_str()) => (),
+            (Some(path::Component::Normal(c)), None)
+                if c.to_str() == Some(command.as_str())
+                    && command.as_str() != result::RESULT_OUTPUT_FILE_NAME => {}
             _ => {
                 return Err(MonorailError::Generic(format!(
                     "Command name '{}' is not usable as a directory name",
